@@ -17,13 +17,24 @@ class Violation(Exception):
     pass
 
 
+class _Names(list):
+    """the inputs of one path; two inputs with one name would overwrite each other in the replay record: that is a harness bug"""
+
+    def append(self, item):
+        for it in self:
+            if it[0] == item[0]:
+                from crosshair.util import CrossHairInternal
+                raise CrossHairInternal(f"harness bug: two inputs are both named {item[0]!r}")
+        list.append(self, item)
+
+
 class KBase:
     symbolic = False
 
     def __init__(self, cond):
         self.cond = cond
         self.params = dict(cond.params)
-        self.names = []        # (name, kind, handle)
+        self.names = _Names()   # (name, kind, handle)
         self.notes = {}
         self.known_hits = []
 
